@@ -1745,7 +1745,16 @@ struct Gen
 					if(two_d)
 						jiggle(alt.y);
 				}
-				alt.f = ordinates(r, alt.f.size());
+				if(variant == 2 && r.chance(0.5))
+				{
+					// near-identical table: same abscissae, ONE ordinate different (the last, the first, or any) - an equality test
+					// that looks at part of the table takes the two for one
+					size_t k  = r.chance(0.4) ? alt.f.size() - 1 : r.chance(0.5) ? 0 : (size_t) r.below(alt.f.size());
+					double nv = alt.f[k] != 0.0 ? alt.f[k] * r.range(1.5, 4.0) * r.sign() : r.range(0.5, 2.0);
+					alt.f[k]  = nv;
+				}
+				else
+					alt.f = ordinates(r, alt.f.size());
 				alt.derive();
 				bool ok = true;
 				for(size_t i = 1; i < alt.xs.size(); i++)
